@@ -216,4 +216,135 @@ Proof.
   - unfold stop_condition in E0. injection E0 as <- _. unfold B. simpl. split; intros; lia.
 Qed.
 
+(* ---- failures are recorded: the status map after a poll against what the poll showed ---------------------------- *)
+Lemma result_step_vals sd st done r st' done' t :
+  result_step o sd (st, done) r = (st', done') -> aget t done' = Some Failed -> aget t done = Some Failed.
+Proof.
+  unfold result_step. destruct r as [[t0 idx] rep]. destruct (amem t0 done); [intro H; injection H as _ <-; auto|].
+  destruct (notify_result o sd t0 idx st) as [[st1 s] d]. intro Ha.
+  apply apply_decision_spec in Ha. destruct Ha as (_ & _ & Ha).
+  assert (G : forall v, v <> Failed -> aget t (aset t0 v done) = Some Failed -> aget t done = Some Failed).
+  { intros v Hv Hx. destruct (Nat.eq_dec t t0) as [->|Hne]; [rewrite aget_aset_same in Hx; congruence|].
+    rewrite aget_aset_other in Hx by exact Hne. exact Hx. }
+  destruct d.
+  - destruct Ha as [_ ->]. auto.
+  - destruct Ha as (-> & _). apply G. discriminate.
+  - destruct Ha as (_ & _ & Ha). destruct s; destruct Ha as (-> & _); apply G; discriminate.
+Qed.
+Lemma loop1_vals sd rs t : forall st done st' done',
+  loop1 o sd rs st done = (st', done') -> aget t done' = Some Failed -> aget t done = Some Failed.
+Proof.
+  unfold loop1. induction rs as [|r rs IH]; intros st done st' done' H Hx; cbn [fold_left] in H.
+  - injection H as _ <-. exact Hx.
+  - destruct (result_step o sd (st, done) r) as [st1 done1] eqn:E1. eapply result_step_vals; [exact E1|]. eapply IH; eauto.
+Qed.
+
+Lemma status_step_vals st done t0 s0 st' done' :
+  status_step (st, done, None) (t0, s0) = (st', done', None) ->
+  (forall t, t <> t0 -> aget t done' = aget t done) /\
+  (aget t0 done <> Some Failed -> (aget t0 done' = Some Failed <-> s0 = Failed)).
+Proof.
+  unfold status_step.
+  assert (G : forall v, (forall x, x <> t0 -> aget x (aset t0 v done) = aget x done) /\ aget t0 (aset t0 v done) = Some v).
+  { intro v. split; [intros x Hx; apply aget_aset_other; exact Hx|apply aget_aset_same]. }
+  destruct s0; try solve [intro H; injection H as _ <-; split; [auto|intro Hn; split; [intro Hx; contradiction|discriminate]]].
+  - destruct (s_last st t0); [|discriminate]. intro H; injection H as _ <-.
+    destruct (G (match aget t0 done with Some Paused => Paused | _ => Completed end)) as [G1 G2].
+    split; [exact G1|]. intros _. rewrite G2. split; [|discriminate]. intro Hx. injection Hx as Hx.
+    destruct (aget t0 done) as [[]|]; discriminate.
+  - intro H; injection H as _ <-. destruct (G Failed) as [G1 G2]. split; [exact G1|]. intros _. rewrite G2. tauto.
+  - destruct (mem_nat t0 (s_sstopped st)); intro H; injection H as _ <-.
+    + split; [auto|]. intro Hn. split; [intro Hx; contradiction|discriminate].
+    + destruct (G Stopped) as [G1 G2]. split; [exact G1|]. intros _. rewrite G2. split; discriminate.
+Qed.
+
+Lemma loop2_vals sd : forall st done st' done',
+  fold_left status_step sd (st, done, None) = (st', done', None) -> NoDup (map fst sd) ->
+  (forall t, aget t done = Some Failed -> ~ In t (map fst sd)) ->
+  forall t, aget t done' = Some Failed <-> (In (t, Failed) sd \/ aget t done = Some Failed).
+Proof.
+  induction sd as [|e sd IH]; intros st done st' done' H Hnd Hfresh t; cbn [fold_left] in H.
+  - injection H as _ <-. simpl. tauto.
+  - destruct (status_step (st, done, None) e) as [[st1 done1] err1] eqn:E1.
+    assert (Herr1 : err1 = None).
+    { destruct err1 as [e1|]; [|reflexivity]. exfalso.
+      clear - H. revert H. generalize st1 done1. induction sd as [|e' sd IH]; intros s0 d0 H; cbn [fold_left] in H; [discriminate|].
+      unfold status_step at 2 in H. eapply IH; eauto. }
+    subst err1. destruct e as [t0 s0]. cbn [map fst] in *. inversion Hnd as [|? ? Hni Hnd']; subst.
+    destruct (status_step_vals _ _ _ _ _ _ E1) as (V1 & V2).
+    assert (Hn0 : aget t0 done <> Some Failed) by (intro Hx; apply (Hfresh t0 Hx); left; reflexivity).
+    specialize (V2 Hn0).
+    assert (Hfresh1 : forall x, aget x done1 = Some Failed -> ~ In x (map fst sd)).
+    { intros x Hx. destruct (Nat.eq_dec x t0) as [->|Hne]; [exact Hni|].
+      rewrite V1 in Hx by exact Hne. intro Hin. apply (Hfresh x Hx). right. exact Hin. }
+    rewrite (IH _ _ _ _ H Hnd' Hfresh1 t). cbn [In].
+    destruct (Nat.eq_dec t t0) as [->|Hne].
+    + rewrite V2. split.
+      * intros [Hin|Hs]; [left; right; exact Hin|left; left; rewrite Hs; reflexivity].
+      * intros [[Heq|Hin]|Hx]; [injection Heq as <-; right; reflexivity|left; exact Hin|contradiction].
+    + rewrite V1 by exact Hne. split.
+      * intros [Hin|Hx]; [left; right; exact Hin|right; exact Hx].
+      * intros [[Heq|Hin]|Hx]; [injection Heq as Heq _; congruence|left; exact Hin|right; exact Hx].
+Qed.
+
+(* after a poll that raised no exception: a trial has the status-map entry Failed iff the poll listed it as Failed, or
+   the poll did not list it and its entry was Failed before; [sd] is the status dictionary of the ECbFetch event *)
+Theorem failures_recorded st st' done :
+  process_new_results prm o st = (st', done, None) -> NoDup (s_running st) ->
+  exists sd rs, In (ECbFetch sd rs) (s_trace st') /\ map fst sd = poll_order (s_running st) (o_ord o (s_np st)) /\
+    forall t, aget t (s_smap st') = Some Failed <->
+              (In (t, Failed) sd \/ (~ In t (map fst sd) /\ aget t (s_smap st) = Some Failed)).
+Proof.
+  intros H Hnd. revert H. unfold process_new_results.
+  set (order := poll_order (s_running st) (o_ord o (s_np st))).
+  set (st0 := emit (EBFetch order) (set_np st (S (s_np st)))).
+  destruct (fetch o order st0) as [[st1 sd] rs] eqn:Ef.
+  apply fetch_spec in Ef. destruct Ef as (A & _ & _ & _ & _ & _ & Hsdk & _ & Hrs).
+  set (ev := ECbFetch sd (map (fun r => (fst (fst r), snd (fst r))) rs)).
+  set (st1' := emit ev st1).
+  destruct (Nat.ltb (n_workers prm) (length (s_running st1'))); [discriminate|].
+  destruct (loop1 o sd rs st1' []) as [st2 done2] eqn:E1.
+  pose proof (loop1_ext _ _ _ _ _ _ _ E1) as (n1 & T1 & _).
+  pose proof (loop1_budget _ _ _ _ _ _ _ E1) as (C1 & _).
+  assert (K1 : keys_ok done2 (map fst sd)).
+  { eapply (loop1_keys o sd rs); [exact E1| |split; [constructor|intros x []]]. intros r Hr. rewrite Hsdk. apply Hrs. exact Hr. }
+  assert (V1 : forall t, aget t done2 <> Some Failed).
+  { intros t Hx. apply (loop1_vals _ _ _ _ _ _ _ E1) in Hx. discriminate. }
+  destruct (loop2 sd st2 done2) as [[st3 done3] err3] eqn:E2. unfold loop2 in E2.
+  pose proof (loop2_ext _ _ _ _ _ _ _ E2) as (n2 & T2 & _).
+  pose proof (loop2_budget sd _ _ _ _ _ _ _ E2) as (C2 & _).
+  destruct err3; [discriminate|]. intro H. injection H as <- <-.
+  assert (Hndsd : NoDup (map fst sd)) by (rewrite Hsdk; apply poll_order_NoDup; exact Hnd).
+  pose proof (loop2_vals _ _ _ _ _ E2 Hndsd (fun t Hx => False_ind _ (V1 t Hx))) as V2.
+  pose proof (loop2_keys (map fst sd) sd _ _ _ _ _ _ E2 (fun e He => in_map fst sd e He) K1) as (K3 & _).
+  exists sd, (map (fun r => (fst (fst r), snd (fst r))) rs).
+  destruct (status_update_frame (aupdate sd done3) rs st3) as (_ & _ & _ & F4 & F5 & _).
+  split; [|split; [exact Hsdk|]].
+  - rewrite F4, T2, T1. apply in_or_app. right. apply in_or_app. right. unfold st1'. simpl. left. reflexivity.
+  - intro t. rewrite F5.
+    assert (Hsm : s_smap st3 = s_smap st).
+    { destruct C2 as (_ & _ & -> & _). destruct C1 as (_ & _ & -> & _). unfold st1'. simpl.
+      destruct A as (_ & _ & _ & _ & _ & -> & _). reflexivity. }
+    rewrite Hsm.
+    assert (HU : map fst (aupdate sd done3) = map fst sd) by (apply aupdate_keys; apply K3).
+    assert (HndU : NoDup (map fst (aupdate sd done3))) by (rewrite HU; exact Hndsd).
+    destruct (in_dec Nat.eq_dec t (map fst sd)) as [Hin|Hnin].
+    + (* listed by the poll: the entry is the one of done_trials if there is one, else the listed status *)
+      assert (Hval : aget t (aupdate sd done3) = Some Failed <-> In (t, Failed) sd).
+      { destruct (aget t done3) as [v|] eqn:Ed.
+        - rewrite (aget_aupdate_in _ _ _ _ (proj1 K3) Ed). split; intro Hx.
+          + injection Hx as ->. apply V2 in Ed. destruct Ed as [Hi|Hd]; [exact Hi|exfalso; apply (V1 t Hd)].
+          + assert (Hf : aget t done3 = Some Failed) by (apply V2; left; exact Hx). congruence.
+        - assert (Hnd3 : ~ In t (map fst done3)) by (apply aget_none_notin; exact Ed).
+          rewrite aget_aupdate_notin by exact Hnd3. split; intro Hx.
+          + apply aget_In. exact Hx.
+          + exfalso. assert (Hf : aget t done3 = Some Failed) by (apply V2; left; exact Hx). congruence. }
+      destruct (aget t (aupdate sd done3)) as [v|] eqn:Ev.
+      * rewrite (aget_aupdate_in _ _ _ _ HndU Ev). rewrite <- Hval. split; [intro Hx; left; exact Hx|intros [Hx|[Hx _]]; [exact Hx|contradiction]].
+      * exfalso. apply aget_none_notin in Ev. rewrite HU in Ev. contradiction.
+    + rewrite aget_aupdate_notin by (rewrite HU; exact Hnin). split.
+      * intro Hx. right. split; assumption.
+      * intros [Hx|[_ Hx]]; [exfalso; apply Hnin; apply in_map_iff; exists (t, Failed); auto|exact Hx].
+Qed.
+
 End Eval.
